@@ -743,8 +743,465 @@ class ExpIntVarAcquire(_AcqContract):
         return _AcqContract.requires(self, s) + [z3.Int('n_inits') >= 1, s.G >= 1, z3.Int('iter_imp') >= 1, z3.Int('t') >= 0]
 
 
+# ============================================================================================== evidence bookkeeping (bolfi.py)
+PI = 'elfi/methods/inference/parameter_inference.py::'
+ACQ_INDEX = z3.Function('acq_index', I, I)        # the acquisition index of a batch index (GetAcquisitionIndex pins it to the floor quotient)
+
+
+def floor_quot(t, num, den):
+    """t = floor(num / den) for den > 0, as two inequalities (no division)"""
+    return z3.And(t * den <= num, num < (t + 1) * den)
+
+
+def bo_ints(vc):
+    b, bpa, ni, npre = z3.Ints('batch_size batches_per_acquisition n_initial_evidence n_precomputed_evidence')
+    vc.fin_bounds.extend([b, bpa, ni, npre])
+    return b, bpa, ni, npre
+
+
+class GetAcquisitionIndex(Contract):
+    target = BOLFI + 'BayesianOptimization._get_acquisition_index'
+    prop = 'C11'
+    fin = 4
+
+    def setup(self, vc):
+        b, bpa, ni, npre = bo_ints(vc)
+        i = z3.Int('batch_index')
+        vc.fin_bounds.append(i)
+        s = NS(b=b, bpa=bpa, ni=ni, npre=npre, i=i)
+        s.self = make_object('BOStub', attrs=dict(batch_size=SInt(b), batches_per_acquisition=SInt(bpa), n_initial_evidence=SInt(ni), n_precomputed_evidence=SInt(npre)))
+        return s, (s.self, SInt(i)), {}
+
+    def requires(self, s):
+        return [s.b >= 1, s.bpa >= 1, s.ni >= 0, s.npre >= 0, s.i >= 0]
+
+    def ensures(self, s, result):
+        t = T(result)
+        off = s.ni - s.npre
+        return [('t = floor((batch_size * batch_index - (n_initial - n_precomputed)) / (batch_size * batches_per_acquisition))',
+                 floor_quot(t, s.b * s.i - off, s.b * s.bpa)),
+                ('t < 0 exactly while the batch still belongs to the initial evidence', (t < 0) == (s.b * s.i < off))]
+
+
+class ResolveInitialEvidence(Contract):
+    target = BOLFI + 'BayesianOptimization._resolve_initial_evidence'
+    prop = 'C11'
+    fin = 4
+
+    def __init__(self, form):
+        self.form = form          # default | count | precomputed
+        self.label = form
+
+    def setup(self, vc):
+        b, given, npre = z3.Ints('batch_size initial_evidence n_precomputed')
+        vc.fin_bounds.extend([b, given, npre])
+        dim = vc.fork_values('input_dim', [1, 2, 3, 4, 5])
+        s = NS(b=b, given=given, npre=npre, input_dim=dim)
+        s.pre = {'d': SArr.fresh('pre_d', (npre,), 'real'), 'a': SArr.fresh('pre_a', (npre,), 'real')}
+        s.self = make_object('BOStub', attrs=dict(batch_size=SInt(b), target_name='d', target_model=NS(input_dim=dim)))
+        arg = {'default': None, 'count': SInt(given), 'precomputed': s.pre}[self.form]
+        return s, (s.self, arg), {}
+
+    def env(self, vc):
+        return dict(ceil_to_batch_size=inline(vc, 'elfi/methods/utils.py::ceil_to_batch_size'),
+                    np=np_module(isscalar=lambda x: isinstance(x, (SInt, SReal, int, float))))
+
+    def requires(self, s):
+        return [s.b >= 1, s.npre >= 0]
+
+    def raises(self, s):
+        return {'ValueError': s.given < 0 if self.form == 'count' else z3.BoolVal(False)}
+
+    def iff_raises(self, s):
+        return [('a negative count is rejected', s.given >= 0)] if self.form == 'count' else []
+
+    def ensures(self, s, result):
+        if not (isinstance(result, tuple) and len(result) == 2):
+            return [('returns (n_initial_evidence, precomputed)', z3.BoolVal(False))]
+        n = T(result[0])
+        ceil_of = lambda want: z3.And(n >= want, n < want + s.b, exists_range(0, want + 1, lambda k: n == k * s.b, 'k'))
+        if self.form == 'precomputed':
+            return [('precomputed evidence: the count is the number of precomputed target values, the dict is passed on', z3.And(n == s.npre, z3.BoolVal(result[1] is s.pre)))]
+        if self.form == 'count':
+            return [('count: rounded up to the next multiple of batch_size, nothing precomputed', z3.And(ceil_of(s.given), z3.BoolVal(result[1] is None)))]
+        want = max(10, 2 ** s.input_dim + 1)
+        return [('default: max(10, 2^dim + 1) rounded up to the next multiple of batch_size', z3.And(ceil_of(z3.IntVal(want)), z3.BoolVal(result[1] is None)))]
+
+
+NAMES_MODEL = ['a', 'b']          # order of the parameters in the ElfiModel / in a batch
+NAMES_GP = ['b', 'a']             # target_model.parameter_names: the column order of the surrogate (deliberately different)
+
+
+class GPStub:
+    """the surrogate (GPyRegression) seen from BayesianOptimization.  Assumed callee contract (C10, gpy_regression.update):
+    X' = X ++ x, Y' = Y ++ y, n_evidence' = n_evidence + len(x); needs x with one column per parameter and len(x) == len(y)."""
+
+    def __init__(self, vc, N, names=NAMES_GP):
+        self.parameter_names = list(names)
+        self.input_dim = len(names)
+        self.N0 = N
+        self.N = N
+        self.X0 = SArr.fresh('X0', (N, len(names)), 'real')
+        self.Y0 = SArr.fresh('Y0', (N,), 'real')
+        self.X, self.Y = self.X0, self.Y0
+        self.calls = []
+
+    def __bool__(self):
+        return True
+
+    @property
+    def n_evidence(self):
+        return SInt(self.N)
+
+    def update(self, x, y, optimize=False):
+        vc = cur()
+        if not (isinstance(x, SArr) and x.ndim == 2 and isinstance(y, SArr) and y.ndim == 1):
+            raise OutOfSubset('target_model.update with x of rank != 2 or y of rank != 1')
+        x, y = x.snapshot(), y.snapshot()
+        vc.oblige('call-pre[C10 update: one column per surrogate parameter, as many targets as points]',
+                  z3.And(x.shape[1] == self.input_dim, x.shape[0] == y.shape[0]))
+        self.calls.append(dict(x=x, y=y, optimize=optimize, N_before=self.N))
+        X, Y, N = self.X.snapshot(), self.Y.snapshot(), self.N
+        self.X = SArr(Cell(lambda r, j: z3.If(r < N, X.at(r, j), x.at(r - N, j)), (N + x.shape[0], z3.IntVal(self.input_dim)), 'real'))
+        self.Y = SArr(Cell(lambda r: z3.If(r < N, Y.at(r), y.at(r - N)), (N + y.shape[0],), 'real'))
+        self.N = N + x.shape[0]
+
+
+def batch_of(prefix, rows):
+    """a batch dict: target 'd' and one 1-d output per model parameter, each with `rows` entries"""
+    return {k: SArr.fresh('%s_%s' % (prefix, k), (rows,), 'real') for k in ['d'] + NAMES_MODEL}
+
+
+def appended(gp, N0, rows, batch, target='d'):
+    """evidence after = evidence before ++ the batch's (parameters in surrogate column order, target) pairs"""
+    d = len(gp.parameter_names)
+    keep = forall_range(0, N0, lambda r: z3.And(gp.Y.at(r) == gp.Y0.at(r), z3.And([gp.X.at(r, j) == gp.X0.at(r, j) for j in range(d)])), 'r')
+    new = forall_range(0, rows, lambda r: z3.And(gp.Y.at(N0 + r) == batch[target].at(r),
+                                                  z3.And([gp.X.at(N0 + r, j) == batch[gp.parameter_names[j]].at(r) for j in range(d)])), 'r')
+    return z3.And(gp.X.shape[0] == N0 + rows, gp.Y.shape[0] == N0 + rows, keep, new)
+
+
+def bo_env(vc):
+    return dict(batch_to_arr2d=inline(vc, 'elfi/methods/utils.py::batch_to_arr2d'), arr2d_to_batch=inline(vc, 'elfi/methods/utils.py::arr2d_to_batch'),
+                np=np_module(), super=lambda cls, obj: obj._vc_super(), BayesianOptimization=object())
+
+
+class BOInit(Contract):
+    """BayesianOptimization.__init__: precomputed evidence goes to the surrogate once, columns in the surrogate's parameter order,
+    and n_evidence counts exactly it"""
+    target = BOLFI + 'BayesianOptimization.__init__'
+    prop = 'C11'
+    fin = 4
+
+    def __init__(self, form):
+        self.form = form      # precomputed | count
+        self.label = form
+
+    def setup(self, vc):
+        b, ni, npre = z3.Ints('batch_size n_initial_resolved n_precomputed')
+        vc.fin_bounds.extend([b, ni, npre])
+        s = NS(b=b, ni=ni, npre=npre)
+        s.gp = GPStub(vc, z3.IntVal(0))
+        s.pre = batch_of('pre', npre) if self.form == 'precomputed' else None
+        s.initial_evidence = s.pre if self.form == 'precomputed' else SInt(z3.Int('initial_evidence'))
+        s.model = NS(parameter_names=list(NAMES_MODEL))
+        s.made = []
+
+        def base_init(model, output_names, batch_size=1, **kw):
+            o = s.self
+            o.model, o.output_names, o.batch_size = model, output_names, batch_size
+            o.state, o.objective = dict(n_sim=0, n_batches=0), dict()
+            o.max_parallel_batches, o.seed = SInt(z3.Int('max_parallel_batches')), 7
+            s.made.append(('base', output_names))
+
+        def resolve_initial(self_, ie):
+            vc.oblige('call-pre[_resolve_initial_evidence receives the initial_evidence argument]', z3.BoolVal(ie is s.initial_evidence))
+            return SInt(ni), s.pre
+        s.self = make_object('BOStub', methods=dict(_vc_super=lambda self_: NS(__init__=base_init), _resolve_model=lambda self_, m, t: (m, t),
+                                                    _resolve_initial_evidence=resolve_initial))
+        s.acq = object()
+        kw = dict(target_name='d', bounds=None, initial_evidence=s.initial_evidence, update_interval=SInt(z3.Int('update_interval')), target_model=s.gp,
+                  acquisition_method=s.acq, batch_size=SInt(b), batches_per_acquisition=None, async_acq=False)
+        return s, (s.self, s.model), kw
+
+    def env(self, vc):
+        e = bo_env(vc)
+        e.update(ModelPrior=lambda *a, **k: Opaque('ModelPrior'), LCBSC=lambda *a, **k: _oos('default acquisition'), GPyRegression=lambda *a, **k: _oos('default surrogate'))
+        return e
+
+    def requires(self, s):
+        return [s.b >= 1, s.ni >= 0, s.npre >= 1, z3.Int('max_parallel_batches') >= 1] + ([s.ni == s.npre] if self.form == 'precomputed' else [])
+
+    def ensures(self, s, result):
+        o, gp = s.self, s.gp
+        out = [('the requested outputs are the target followed by the model parameters', z3.BoolVal(s.made == [('base', ['d'] + NAMES_MODEL)])),
+               ('the surrogate and the acquisition rule are the ones passed in', z3.BoolVal(o.target_model is gp and o.acquisition_method is s.acq)),
+               ('no acquisition is stored yet', z3.BoolVal(isinstance(o.state.get('acquisition'), list) and o.state['acquisition'] == []))]
+        if self.form == 'precomputed':
+            out += [('the surrogate is trained exactly once, on the precomputed evidence, columns in the surrogate\'s parameter order',
+                     z3.And(z3.BoolVal(len(gp.calls) == 1), appended(gp, z3.IntVal(0), s.npre, s.pre))),
+                    ('n_evidence counts the precomputed evidence', z3.And(T(o.state['n_evidence']) == s.npre, T(o.n_precomputed_evidence) == s.npre, T(o.state['n_evidence']) == gp.N))]
+        else:
+            out += [('nothing precomputed: the surrogate is not trained and n_evidence = 0',
+                     z3.And(z3.BoolVal(len(gp.calls) == 0), T(o.state['n_evidence']) == 0, T(o.n_precomputed_evidence) == 0))]
+        out.append(('n_initial_evidence is what _resolve_initial_evidence returned', T(o.n_initial_evidence) == s.ni))
+        return out
+
+
+class BOUpdate(Contract):
+    """BayesianOptimization.update: n_evidence += batch_size; the surrogate receives exactly the batch's parameters (columns in the
+    surrogate's parameter order) and target values, once: X' = X ++ params, Y' = Y ++ target (with C10's update contract)"""
+    target = BOLFI + 'BayesianOptimization.update'
+    prop = 'C11'
+    fin = 4
+
+    def setup(self, vc):
+        b, N, last, interval, ni = z3.Ints('batch_size n_evidence last_GP_update update_interval n_initial_evidence')
+        vc.fin_bounds.extend([b, N])
+        s = NS(b=b, N=N, last=last, interval=interval, ni=ni)
+        s.gp = GPStub(vc, N)
+        s.batch = batch_of('batch', b)
+        s.base_calls = []
+        s.opt = z3.Bool('should_optimize')
+        s.state = dict(n_evidence=SInt(N), last_GP_update=SInt(last), n_batches=SInt(z3.Int('n_batches')), n_sim=SInt(z3.Int('n_sim')), acquisition=[])
+        s.self = make_object('BOStub', attrs=dict(state=s.state, batch_size=SInt(b), target_model=s.gp, target_name='d', model=NS(parameter_names=list(NAMES_MODEL))),
+                             methods=dict(_vc_super=lambda self_: NS(update=lambda batch, i: s.base_calls.append((batch, i))),
+                                          _report_batch=lambda self_, *a: None, _should_optimize=lambda self_: SBool(s.opt)))
+        s.idx = SInt(z3.Int('batch_index'))
+        return s, (s.self, s.batch, s.idx), {}
+
+    def env(self, vc):
+        return bo_env(vc)
+
+    def requires(self, s):
+        return [s.b >= 1, s.N >= 0]
+
+    def ensures(self, s, result):
+        gp, st = s.gp, s.state
+        return [('the base class counts the batch (same batch, same index)', z3.BoolVal(len(s.base_calls) == 1 and s.base_calls[0][0] is s.batch and s.base_calls[0][1] is s.idx)),
+                ('n_evidence grows by batch_size', T(st['n_evidence']) == s.N + s.b),
+                ('the surrogate is trained exactly once with this batch; its evidence is the old evidence followed by the batch\'s (parameters, target) pairs in order',
+                 z3.And(z3.BoolVal(len(gp.calls) == 1), appended(gp, s.N, s.b, s.batch))),
+                ('n_evidence keeps counting the surrogate\'s evidence', T(st['n_evidence']) == gp.N),
+                ('hyperparameters are re-optimised exactly when _should_optimize says so; last_GP_update then is the new evidence count',
+                 z3.And(gp.calls[0]['optimize'].t == s.opt if gp.calls and isinstance(gp.calls[0]['optimize'], SBool) else z3.BoolVal(False),
+                        T(st['last_GP_update']) == z3.If(s.opt, s.N + s.b, s.last)))]
+
+
+class ShouldOptimize(Contract):
+    target = BOLFI + 'BayesianOptimization._should_optimize'
+    prop = 'C11'
+    fin = 4
+
+    def setup(self, vc):
+        b, N, last, interval, ni = z3.Ints('batch_size n_evidence last_GP_update update_interval n_initial_evidence')
+        vc.fin_bounds.extend([b, N])
+        s = NS(b=b, N=N, last=last, interval=interval, ni=ni)
+        s.self = make_object('BOStub', attrs=dict(state=dict(last_GP_update=SInt(last)), batch_size=SInt(b), target_model=NS(n_evidence=SInt(N)),
+                                                  update_interval=SInt(interval), n_initial_evidence=SInt(ni)))
+        return s, (s.self,), {}
+
+    def requires(self, s):
+        return [s.b >= 1, s.N >= 0]
+
+    def ensures(self, s, result):
+        after = s.N + s.b
+        return [('optimise iff the evidence after this batch reaches the initial evidence and the next update point', T(result) == z3.And(after >= s.ni, after >= s.last + s.interval))]
+
+
+class NEvidence(Contract):
+    target = BOLFI + 'BayesianOptimization.n_evidence'
+    prop = 'C11'
+    fin = 4
+
+    def setup(self, vc):
+        N = z3.Int('n_evidence')
+        s = NS(N=N)
+        s.self = make_object('BOStub', attrs=dict(state=dict(n_evidence=SInt(N))))
+        return s, (s.self,), {}
+
+    def ensures(self, s, result):
+        return [('n_evidence reports the counter of the state', T(result) == s.N)]
+
+
+def acq_index_stub(s):
+    """_get_acquisition_index seen from its callers (post = GetAcquisitionIndex)"""
+    def stub(self_, batch_index):
+        vc = cur()
+        i = T(batch_index)
+        vc.oblige('call-pre[_get_acquisition_index: batch_index >= 0]', i >= 0)
+        t = ACQ_INDEX(i)
+        vc.assume(floor_quot(t, s.b * i - (s.ni - s.npre), s.b * s.bpa))
+        return SInt(t)
+    return stub
+
+
+class AllowSubmit(Contract):
+    """_allow_submit: with synchronous acquisition a batch that would trigger a new acquisition is not allowed while any batch is pending"""
+    target = BOLFI + 'BayesianOptimization._allow_submit'
+    prop = 'C11'
+    fin = 4
+
+    def setup(self, vc):
+        b, bpa, ni, npre = bo_ints(vc)
+        i, pend, left = z3.Ints('batch_index num_pending acquisitions_left')
+        vc.fin_bounds.extend([i, pend, left])
+        s = NS(b=b, bpa=bpa, ni=ni, npre=npre, i=i, pend=pend, left=left, base_ok=z3.Bool('base_allows'), async_=z3.Bool('async_acq'))
+        s.self = make_object('BOStub', attrs=dict(async_acq=SBool(s.async_), state=dict(acquisition=SArr.fresh('acq', (left, 2), 'real')),
+                                                  batches=NS(has_pending=SBool(pend > 0), num_pending=SInt(pend))),
+                             methods=dict(_vc_super=lambda self_: NS(_allow_submit=lambda i_: SBool(s.base_ok)), _get_acquisition_index=acq_index_stub(s)))
+        return s, (s.self, SInt(i)), {}
+
+    def env(self, vc):
+        return bo_env(vc)
+
+    def requires(self, s):
+        return [s.b >= 1, s.bpa >= 1, s.ni >= 0, s.npre >= 0, s.i >= 0, s.pend >= 0, s.left >= 0]
+
+    def ensures(self, s, result):
+        r = T(result)
+        t = ACQ_INDEX(s.i)
+        return [('never more permissive than the base rule', z3.Implies(r, s.base_ok)),
+                ('synchronous acquisition: a batch that needs a NEW acquisition (t >= 0, none left over) is allowed only when no batch is pending',
+                 z3.Implies(z3.And(r, z3.Not(s.async_), t >= 0, s.left == 0), s.pend == 0)),
+                ('initial-evidence batches, left-over acquisitions and asynchronous mode follow the base rule',
+                 z3.Implies(z3.And(s.base_ok, z3.Or(s.async_, t < 0, s.left > 0, s.pend == 0)), r))]
+
+
+def allowed_fact(async_, t, left, pend):
+    """what a True answer of _allow_submit guarantees (AllowSubmit, second clause)"""
+    return z3.Implies(z3.And(z3.Not(async_), t >= 0, left == 0), pend == 0)
+
+
+class PrepareNewBatch(Contract):
+    """prepare_new_batch: initial-evidence batches come from the prior (None); otherwise the next batch_size rows of the stored
+    acquisition, a new acquisition being made only when none is left - and then, if not async, with no batch pending"""
+    target = BOLFI + 'BayesianOptimization.prepare_new_batch'
+    prop = 'C11'
+    fin = 3
+    fin_range = 10
+
+    def setup(self, vc):
+        b, bpa, ni, npre = bo_ints(vc)
+        i, pend, m = z3.Ints('batch_index num_pending stored_batches')
+        vc.fin_bounds.extend([i, pend, m])
+        s = NS(b=b, bpa=bpa, ni=ni, npre=npre, i=i, pend=pend, m=m, async_=z3.Bool('async_acq'), dim=z3.IntVal(2), bounds=Bounds(z3.IntVal(2)))
+        s.stored = SArr.fresh('stored_acq', (m * b, 2), 'real')
+        s.acquired = []
+
+        def acquire(n, t=None):
+            vc.oblige('call-pre[acquire: with synchronous acquisition no batch is pending]', z3.Or(s.async_, s.pend == 0))
+            vc.oblige('call-pre[acquire: asks for batch_size * batches_per_acquisition points at the acquisition index of the batch]',
+                      z3.And(T(n) == b * bpa, T(t) == ACQ_INDEX(i)))
+            out = SArr.fresh('acquired', (b * bpa, 2), 'real')      # post of the acquisition rules' contracts: exactly n points, inside the bounds
+            vc.assume(rows_in_bounds(out, b * bpa, 2))
+            s.acquired.append(out)
+            return out
+        s.state = dict(acquisition=s.stored)
+        s.gp = NS(parameter_names=list(NAMES_GP))
+        s.self = make_object('BOStub', attrs=dict(state=s.state, batch_size=SInt(b), batches_per_acquisition=SInt(bpa), target_model=s.gp,
+                                                  acquisition_method=NS(acquire=acquire)),
+                             methods=dict(_get_acquisition_index=acq_index_stub(s)),
+                             properties=dict(acq_batch_size=inline(vc, BOLFI + 'BayesianOptimization.acq_batch_size')))
+        return s, (s.self, SInt(i)), {}
+
+    def env(self, vc):
+        return bo_env(vc)
+
+    def requires(self, s):
+        return [s.b >= 1, s.bpa >= 1, s.ni >= 0, s.npre >= 0, s.i >= 0, s.pend >= 0, s.m >= 0,
+                ('stored acquisitions lie inside the bounds (posts of acquire and of this function)', rows_in_bounds(s.stored, s.m * s.b, 2)),
+                ('the batch was allowed by _allow_submit in this state', allowed_fact(s.async_, ACQ_INDEX(s.i), s.m * s.b, s.pend))]
+
+    def ensures(self, s, result):
+        t = ACQ_INDEX(s.i)
+        if result is None:
+            return [('None (parameters from the prior) only for initial-evidence batches; nothing acquired, the stored acquisition untouched',
+                     z3.And(t < 0, z3.BoolVal(not s.acquired and s.state['acquisition'] is s.stored)))]
+        if not (isinstance(result, dict) and list(result.keys()) == NAMES_GP and all(isinstance(v, SArr) and v.ndim == 1 for v in result.values())):
+            return [('returns one 1-d array per surrogate parameter', z3.BoolVal(False))]
+        src = s.acquired[0] if s.acquired else s.stored
+        M = s.bpa if s.acquired else s.m
+        rest = s.state['acquisition']
+        if not (isinstance(rest, SArr) and rest.ndim == 2):
+            return [('the rest of the acquisition stays stored as a matrix', z3.BoolVal(False))]
+        return [('a batch is built only after the initial evidence', t >= 0),
+                ('a new acquisition is made exactly when none was left', z3.And(z3.BoolVal(len(s.acquired) <= 1), (s.m == 0) == z3.BoolVal(bool(s.acquired)))),
+                ('the batch holds exactly batch_size points: the first rows of the acquisition, parameter j from column j of the surrogate\'s order',
+                 z3.And([z3.And(result[NAMES_GP[j]].shape[0] == s.b, forall_range(0, s.b, lambda r, j=j: result[NAMES_GP[j]].at(r) == src.at(r, j), 'r')) for j in range(2)])),
+                ('every point of the batch lies inside the bounds',
+                 z3.And([forall_range(0, s.b, lambda r, j=j: inb(result[NAMES_GP[j]].at(r), j), 'r') for j in range(2)])),
+                ('the remaining rows stay stored, in order, a whole number of batches, inside the bounds',
+                 z3.And(rest.shape[0] == (M - 1) * s.b, rest.shape[1] == 2,
+                        forall_range(0, (M - 1) * s.b, lambda r: z3.And([z3.And(rest.at(r, j) == src.at(s.b + r, j), inb(rest.at(r, j), j)) for j in range(2)]), 'r')))]
+
+
+class World(Sym):
+    """ghost state of one BayesianOptimization object between the calls made by iterate()"""
+
+    def __init__(self):
+        self.t = None
+        self._vc_havoc('w')
+
+    def _vc_havoc(self, name='w'):
+        vc = cur()
+        self.pend, self.left, self.next = vc.fresh_int('pending'), vc.fresh_int('left'), vc.fresh_int('next_index')
+        vc.assume(self.pend >= 0, self.left >= 0, self.next >= 0)
+
+
+class Iterate(Contract):
+    """ParameterInference.iterate as used by BayesianOptimization: prepare_new_batch(i) is only ever called right after
+    _allow_submit(i) returned True, for the same index and in the same state - so the premise of PrepareNewBatch holds at its only
+    call site, hence: whenever acquisition_method.acquire is called and not async_acq, no batch is pending."""
+    target = PI + 'ParameterInference.iterate'
+    prop = 'C11'
+    fin = 4
+
+    def setup(self, vc):
+        s = NS(async_=z3.Bool('async_acq'), prepared=[], updates=[])
+        w = s.w = World()
+
+        def allow(self_, i):
+            r = vc.fresh('allowed', B)
+            vc.assume(z3.Implies(r, allowed_fact(s.async_, ACQ_INDEX(T(i)), w.left, w.pend)))       # post of AllowSubmit
+            return SBool(r)
+
+        def prepare(self_, i):
+            vc.oblige('call-pre[prepare_new_batch: the batch was allowed by _allow_submit in this state]',
+                      allowed_fact(s.async_, ACQ_INDEX(T(i)), w.left, w.pend))
+            s.prepared.append(i)
+            w.left = vc.fresh_int('left')           # post of PrepareNewBatch: some rows are taken from / added to the stored acquisition
+            vc.assume(w.left >= 0)
+            return object()
+
+        class Batches:
+            @property
+            def next_index(self_):
+                return SInt(w.next)
+
+            def submit(self_, batch=None):
+                w.pend, w.next = w.pend + 1, w.next + 1
+
+            def wait_next(self_):
+                vc.assume(w.pend >= 1)          # BatchHandler.wait_next raises when nothing is pending (C04): normal return only otherwise
+                w.pend = w.pend - 1
+                return object(), SInt(vc.fresh_int('received_index'))
+        s.self = make_object('BOStub', attrs=dict(batches=Batches()),
+                             methods=dict(_allow_submit=allow, prepare_new_batch=prepare, update=lambda self_, batch, i: s.updates.append(i)))
+        return s, (s.self,), {}
+
+    @property
+    def loops(self):
+        return {0: Loop(inv=lambda s, l: [('the counters of the batch handler stay non-negative', z3.And(s.w.pend >= 0, s.w.next >= 0, s.w.left >= 0))], modifies=lambda s, l: [s.w])}
+
+    def ensures(self, s, result):
+        return [('exactly one batch is consumed per iteration', z3.BoolVal(len(s.updates) == 1))]
+
+
 def contracts():
     return [Minimize('uniform-rs'), Minimize('uniform-module'), Minimize('prior-2d'), Minimize('prior-1d'),
             AddNoise('none'), AddNoise('zero'), AddNoise('scalar'), AddNoise('per-parameter'),
             BaseAcquire(False), BaseAcquire(True), MaxVarAcquire(), UniformAcquire(), ExpIntVarAcquire('grid'), ExpIntVarAcquire('importance'),
-            RandMaxVarAcquire('metropolis'), RandMaxVarAcquire('nuts')]
+            RandMaxVarAcquire('metropolis'), RandMaxVarAcquire('nuts'),
+            GetAcquisitionIndex(), ResolveInitialEvidence('default'), ResolveInitialEvidence('count'), ResolveInitialEvidence('precomputed'),
+            BOInit('precomputed'), BOInit('count'), BOUpdate(), ShouldOptimize(), NEvidence(), AllowSubmit(), PrepareNewBatch(), Iterate()]
